@@ -369,6 +369,24 @@ def replay_eval_(ext, hc, chain, ev, out, verbose, stats, raw, t_rec, t_hist):
             v(["C06"] + (["C10"] if "abort" in [t["op"] for t in ev["trace"]] else []), "pybridge-new-history-failed", type(ex).__name__, "new_history() through the extension raised %r" % (ex,))
             return viol, "stop"
         want = t_hist(ev["h_out"])
+        if faulty and got != want and not raw:
+            # after a failure / an abort the two processes may differ in whether a validated job had already been skipped
+            # when the fault arrived (hash order, section 3.8). A skipped job re-records what it consumed - judged
+            # unaltered, but possibly with another stamp - an aborted one keeps the old text. Compare such histories
+            # without the stamps (mtime, size): that is all the production comparison looks at.
+            def norm(h):
+                o = {}
+                for k, val in h.items():
+                    if k.endswith("!!!"):
+                        o[k] = val
+                        continue
+                    try:
+                        d = json.loads(val)
+                        o[k] = json.dumps({n: (x.get("hash") if isinstance(x, dict) else x) for n, x in d.items() if n != "//stamp"}, sort_keys=True)
+                    except Exception:  # noqa: BLE001
+                        o[k] = val
+                return o
+            got, want = norm(got), norm(want)
         if got != want:
             ks = sorted(set(got) ^ set(want))
             dv = sorted(k for k in set(got) & set(want) if got[k] != want[k])
